@@ -70,10 +70,10 @@ Definition nt_size (nt : Z) : option Z := assocZ DFKNTsize_switch (Z.land nt (Z.
 (** hdf_unmap_type: the netCDF class of an HDF number type (low byte) *)
 Definition nc_type (nt : Z) : option Z := assocZ hdf_unmap_type_switch (Z.land nt 255).
 
-(** arguments every attribute interface insists on *)
-Definition args_ok (nt count : Z) (data : bytes) : bool :=
+(** arguments every attribute interface insists on (SDsetattr also refuses native number types) *)
+Definition args_ok (native_ok : bool) (nt count : Z) (data : bytes) : bool :=
   match nt_size nt, nc_type nt with
-  | Some sz, Some _ => (Z.land nt DFNT_NATIVE =? 0) && (1 <=? count) && (count <=? MAX_ORDER)
+  | Some sz, Some _ => (native_ok || (Z.land nt DFNT_NATIVE =? 0)) && (1 <=? count) && (count <=? MAX_ORDER)
                        && (count * sz <=? MAX_FIELD_SIZE) && (zlen data =? count * sz)
   | _, _ => false
   end.
@@ -89,11 +89,13 @@ Inductive obj := OFile | OVar (i : Z) | ODim (i d : Z).
 
 Inductive vkind := KSds | KCoord.
 (** a variable: dataset or coordinate variable.  [v_name = None]: name chosen by the library (unnamed dimension).
-    [v_dims]: identities of its dimensions.  [v_scale]: values of a coordinate variable once set. *)
+    [v_dims]: the slots of its dimensions in the file's dimension table ([s_slots]: slot -> dimension; SDsetdimname
+    with a name in use makes a slot denote the existing dimension).  [v_scale]: values of a coordinate variable once
+    set.  [v_cobj]: the dimension a coordinate variable was made for (-1 for a dataset). *)
 Record var := mkVar { v_name : option bytes; v_kind : vkind; v_nt : Z; v_dims : list Z;
-                      v_attrs : list attr; v_scale : option bytes }.
+                      v_attrs : list attr; v_scale : option bytes; v_cobj : Z }.
 Record dimo := mkDim { d_name : option bytes; d_size : Z }.
-Record sdcore := mkSd { s_gattrs : list attr; s_vars : list var; s_dims : list dimo }.
+Record sdcore := mkSd { s_gattrs : list attr; s_vars : list var; s_dims : list dimo; s_slots : list Z }.
 
 Record vdata := mkVd { vd_nf : Z; vd_attrs : list (Z * list attr) (* field index -> list *) }.
 Record hcore := mkH { h_gattrs : list attr; h_imgs : list (bytes * list attr); h_vds : list vdata;
@@ -102,7 +104,7 @@ Record hcore := mkH { h_gattrs : list attr; h_imgs : list (bytes * list attr); h
 Record state := mkSt { sd_cur : sdcore; sd_saved : sdcore; sd_mode : option mode; sd_dirty : bool;
                        h_cur : hcore; h_mode : option mode; sd_exists : bool; h_exists : bool }.
 
-Definition sd0 := mkSd [] [] [].
+Definition sd0 := mkSd [] [] [] [].
 Definition init := mkSt sd0 sd0 None false (mkH [] [] [] []) None false false.
 
 Inductive op :=
@@ -167,85 +169,132 @@ Definition find_res (l : list attr) (n : bytes) : res :=
 (* ---- SD ------------------------------------------------------------------------------------------------ *)
 Definition writable (m : option mode) : bool := match m with Some MCreate | Some MWrite => true | _ => false end.
 
-Definition var_dim (c : sdcore) (i d : Z) : option Z :=
-  match znth (s_vars c) i with Some v => znth (v_dims v) d | None => None end.
+Definition set_vars (c : sdcore) (vs : list var) : sdcore := mkSd (s_gattrs c) vs (s_dims c) (s_slots c).
+Definition set_dims (c : sdcore) (ds : list dimo) : sdcore := mkSd (s_gattrs c) (s_vars c) ds (s_slots c).
+Definition set_slots (c : sdcore) (sl : list Z) : sdcore := mkSd (s_gattrs c) (s_vars c) (s_dims c) sl.
+Definition set_gattrs (c : sdcore) (l : list attr) : sdcore := mkSd l (s_vars c) (s_dims c) (s_slots c).
 
-(** the coordinate variable of dimension object [k]: first coordinate variable over exactly that dimension *)
+(** dimension [d] of variable [i]: its slot in the file's dimension table and the dimension that slot denotes *)
+Definition var_slot (c : sdcore) (i d : Z) : option Z :=
+  match znth (s_vars c) i with Some v => znth (v_dims v) d | None => None end.
+Definition var_dim (c : sdcore) (i d : Z) : option Z :=
+  match var_slot c i d with Some sl => znth (s_slots c) sl | None => None end.
+
+(** the coordinate variable of dimension [k]: the first coordinate variable made for that dimension *)
 Fixpoint coord_from (vs : list var) (k : Z) (i : Z) : option Z :=
   match vs with
   | [] => None
-  | v :: r => match v_kind v, v_dims v with
-              | KCoord, [k'] => if k' =? k then Some i else coord_from r k (i + 1)
-              | _, _ => coord_from r k (i + 1)
+  | v :: r => match v_kind v with
+              | KCoord => if v_cobj v =? k then Some i else coord_from r k (i + 1)
+              | KSds => coord_from r k (i + 1)
               end
   end.
 Definition coord_of (c : sdcore) (k : Z) : option Z := coord_from (s_vars c) k 0.
 
-(** get the coordinate variable of dimension [k], creating it (float32 unless [nt] given) when missing *)
-Definition ensure_coord (c : sdcore) (k : Z) (nt : Z) : sdcore * Z :=
+(** get the coordinate variable of dimension [k] (reached through slot [sl]), creating it (float32 unless [nt]
+    given) when missing *)
+Definition ensure_coord (c : sdcore) (sl k : Z) (nt : Z) : sdcore * Z :=
   match coord_of c k with
   | Some i => (c, i)
   | None =>
     let nm := match znth (s_dims c) k with Some dm => d_name dm | None => None end in
-    (mkSd (s_gattrs c) (s_vars c ++ [mkVar nm KCoord (if nt =? 0 then DFNT_FLOAT32 else nt) [k] [] None]) (s_dims c),
-     zlen (s_vars c))
+    (set_vars c (s_vars c ++ [mkVar nm KCoord (if nt =? 0 then DFNT_FLOAT32 else nt) [sl] [] None k]), zlen (s_vars c))
   end.
 
+Definition upd_var (v : var) (nm : option bytes) (nt : Z) (dims : list Z) (l : list attr) (sc : option bytes) : var :=
+  mkVar nm (v_kind v) nt dims l sc (v_cobj v).
 Definition set_var_attrs (c : sdcore) (i : Z) (l : list attr) : sdcore :=
   match znth (s_vars c) i with
-  | Some v => mkSd (s_gattrs c) (zset (s_vars c) i (mkVar (v_name v) (v_kind v) (v_nt v) (v_dims v) l (v_scale v))) (s_dims c)
+  | Some v => set_vars c (zset (s_vars c) i (upd_var v (v_name v) (v_nt v) (v_dims v) l (v_scale v)))
   | None => c
   end.
 
-(** resolve an object to (state after a possible coordinate-variable creation, its attribute list, a setter) *)
+(** resolve an object to (state after a possible coordinate-variable creation, where its list lives, the list) *)
 Inductive where_ := WFile | WVar (i : Z).
 Definition resolve (c : sdcore) (o : obj) (create : bool) : option (sdcore * where_ * list attr) :=
   match o with
   | OFile => Some (c, WFile, s_gattrs c)
   | OVar i => match znth (s_vars c) i with Some v => Some (c, WVar i, v_attrs v) | None => None end
   | ODim i d =>
-    match var_dim c i d with
-    | None => None
-    | Some k =>
+    match var_slot c i d, var_dim c i d with
+    | Some sl, Some k =>
       if create then
-        let '(c', j) := ensure_coord c k 0 in
+        let '(c', j) := ensure_coord c sl k 0 in
         match znth (s_vars c') j with Some v => Some (c', WVar j, v_attrs v) | None => None end
       else match coord_of c k with
            | Some j => match znth (s_vars c) j with Some v => Some (c, WVar j, v_attrs v) | None => None end
            | None => Some (c, WFile, [])       (* no coordinate variable: empty list, never written to *)
            end
+    | _, _ => None
     end
   end.
 Definition put_attrs (c : sdcore) (w : where_) (l : list attr) : sdcore :=
-  match w with WFile => mkSd l (s_vars c) (s_dims c) | WVar i => set_var_attrs c i l end.
+  match w with WFile => set_gattrs c l | WVar i => set_var_attrs c i l end.
 
 Definition with_cur (s : state) (c : sdcore) (dirty : bool) : state :=
   mkSt c (sd_saved s) (sd_mode s) (sd_dirty s || dirty) (h_cur s) (h_mode s) (sd_exists s) (h_exists s).
 
-(** set a list of (name, nt, count, data) on variable [i] one after the other (SDIputattr, policy PAny) *)
+(* ---- the predefined metadata, as functions on one attribute list ----------------------------------------- *)
+(** set several attributes one after the other (SDIputattr, policy PAny never refuses) *)
 Fixpoint put_all (l : list attr) (news : list attr) : list attr :=
   match news with
   | [] => l
   | a :: r => put_all (match attr_set PAny l a with Some l' => l' | None => l end) r
   end.
+Definition find_attr (l : list attr) (name : bytes) : option attr :=
+  match attr_find l name with Some i => attr_get l i | None => None end.
+
 Definition str_attr (name : bytes) (s : option bytes) : list attr :=
   match s with
   | Some (x :: r) => [mkAttr name DFNT_CHAR (zlen (x :: r)) (x :: r)]
   | _ => []
   end.
+(** SDsetdatastrs / SDsetdimstrs: NULL and empty strings are skipped *)
+Definition spec_setstrs (l : list attr) (lab u f cs : option bytes) : list attr :=
+  put_all l (str_attr _HDF_LongName lab ++ str_attr _HDF_Units u ++ str_attr _HDF_Format f ++ str_attr _HDF_CoordSys cs).
 (** SDgetdatastrs / SDgetdimstrs: at most [len] bytes of the attribute, as a C string *)
-Definition get_str (l : list attr) (name : bytes) (len : Z) : tok :=
-  match attr_find l name with
-  | Some i => match attr_get l i with
-              | Some a => TB (cstr (firstn (Z.to_nat (Z.min (a_count a) len)) (a_data a)))
-              | None => TB []
-              end
-  | None => TB []
+Definition get_str (l : list attr) (name : bytes) (len : Z) : bytes :=
+  match find_attr l name with
+  | Some a => cstr (firstn (Z.to_nat (Z.min (a_count a) len)) (a_data a))
+  | None => []
   end.
-Definition find_attr (l : list attr) (name : bytes) : option attr :=
-  match attr_find l name with Some i => attr_get l i | None => None end.
+
+Definition int32_bytes (v : Z) : bytes :=
+  [Z.land v 255; Z.land (Z.shiftr v 8) 255; Z.land (Z.shiftr v 16) 255; Z.land (Z.shiftr v 24) 255].
+(** SDsetcal: four float64 (given as 8 bytes each) and the int32 number type *)
+Definition cal_attrs (cal cale ioff ioffe : bytes) (nt : Z) : list attr :=
+  [mkAttr _HDF_ScaleFactor DFNT_FLOAT64 1 cal; mkAttr _HDF_ScaleFactorErr DFNT_FLOAT64 1 cale;
+   mkAttr _HDF_AddOffset DFNT_FLOAT64 1 ioff; mkAttr _HDF_AddOffsetErr DFNT_FLOAT64 1 ioffe;
+   mkAttr _HDF_CalibratedNt DFNT_INT32 1 (int32_bytes nt)].
+Definition spec_setcal (l : list attr) (cal cale ioff ioffe : bytes) (nt : Z) : list attr :=
+  put_all l (cal_attrs cal cale ioff ioffe nt).
+(** SDgetcal: the five values (each copied whole into the caller's zeroed buffer), or failure *)
+Definition spec_getcal (l : list attr) : option (bytes * bytes * bytes * bytes * bytes) :=
+  match find_attr l _HDF_ScaleFactor, find_attr l _HDF_ScaleFactorErr, find_attr l _HDF_AddOffset,
+        find_attr l _HDF_AddOffsetErr, find_attr l _HDF_CalibratedNt with
+  | Some a1, Some a2, Some a3, Some a4, Some a5 => Some (a_data a1, a_data a2, a_data a3, a_data a4, a_data a5)
+  | _, _, _, _, _ => None
+  end.
+(** SDsetrange / SDgetrange on a variable of number type [vnt] whose elements have [sz] bytes *)
+Definition spec_setrange (l : list attr) (vnt sz : Z) (mx mn : bytes) : list attr :=
+  put_all l [mkAttr _HDF_ValidRange vnt 2 (fixed sz mn ++ fixed sz mx)].
+Definition spec_getrange (l : list attr) (sz : Z) : option (bytes * bytes) :=
+  match find_attr l _HDF_ValidRange with
+  | Some a => Some (firstn (Z.to_nat sz) (skipn (Z.to_nat sz) (a_data a)), firstn (Z.to_nat sz) (a_data a))
+  | None => None
+  end.
+Definition spec_setfill (l : list attr) (vnt sz : Z) (v : bytes) : list attr :=
+  put_all l [mkAttr _FillValue vnt 1 (fixed sz v)].
+Definition spec_getfill (l : list attr) : option bytes := option_map a_data (find_attr l _FillValue).
 
 Definition dim_names_ok (n : bytes) : bool := negb (has_prefix fake_prefix n) && (1 <=? zlen n) && (zlen n <=? 60).
+
+(** what the file keeps at SDend: every variable refers to its dimensions directly (duplicate slots are merged) *)
+Definition normalize (c : sdcore) : sdcore :=
+  let res (sl : Z) := match znth (s_slots c) sl with Some k => k | None => sl end in
+  mkSd (s_gattrs c)
+       (map (fun v => mkVar (v_name v) (v_kind v) (v_nt v) (map res (v_dims v)) (v_attrs v) (v_scale v) (v_cobj v)) (s_vars c))
+       (s_dims c) (map Z.of_nat (seq 0 (length (s_dims c)))).
 
 Definition sd_step (s : state) (o : op) : state * res :=
   let c := sd_cur s in
@@ -264,7 +313,7 @@ Definition sd_step (s : state) (o : op) : state * res :=
   | SdEnd =>
     match sd_mode s with
     | None => (s, RUnspec)
-    | Some _ => let keep := if w && sd_dirty s then c else sd_saved s in
+    | Some _ => let keep := if w && sd_dirty s then normalize c else sd_saved s in
                 (mkSt keep keep None false (h_cur s) (h_mode s) (sd_exists s) (h_exists s), ROk [])
     end
   | SdCreate name nt rank dims =>
@@ -275,16 +324,19 @@ Definition sd_step (s : state) (o : op) : state * res :=
          && forallb (fun x => 1 <=? x) dims && dim_names_ok name && negb (match name with 32 :: _ => true | _ => false end)
       then
         let nd := zlen (s_dims c) in
-        let newdims := map (fun x => mkDim None x) dims in
-        let ids := map (fun k => nd + Z.of_nat k) (seq 0 (length dims)) in
-        (with_cur s (mkSd (s_gattrs c) (s_vars c ++ [mkVar (Some name) KSds nt ids [] None]) (s_dims c ++ newdims)) true,
-         ROk [TI (zlen (s_vars c))])
+        let ns := zlen (s_slots c) in
+        let idx := map Z.of_nat (seq 0 (length dims)) in
+        let c1 := mkSd (s_gattrs c)
+                       (s_vars c ++ [mkVar (Some name) KSds nt (map (fun k => ns + k) idx) [] None (-1)])
+                       (s_dims c ++ map (fun x => mkDim None x) dims)
+                       (s_slots c ++ map (fun k => nd + k) idx) in
+        (with_cur s c1 true, ROk [TI (zlen (s_vars c))])
       else (s, RUnspec)
     | _, _ => (s, RUnspec)
     end
   | SdSetAttr ob name nt count data =>
     if negb w then (s, RUnspec) else
-    if negb (args_ok nt count data) then (s, RFail) else
+    if negb (args_ok false nt count data) then (s, RFail) else
     match resolve c ob true with
     | None => (s, RFail)
     | Some (c', wh, l) =>
@@ -304,14 +356,14 @@ Definition sd_step (s : state) (o : op) : state * res :=
     if negb w then (s, RUnspec) else
     match znth (s_vars c) i with
     | None => (s, RFail)
-    | Some v => let news := str_attr _HDF_LongName l ++ str_attr _HDF_Units u ++ str_attr _HDF_Format f ++ str_attr _HDF_CoordSys cs in
-                (with_cur s (set_var_attrs c i (put_all (v_attrs v) news)) true, ROk [])
+    | Some v => (with_cur s (set_var_attrs c i (spec_setstrs (v_attrs v) l u f cs)) true, ROk [])
     end
   | SdGetDataStrs i len =>
     match znth (s_vars c) i with
     | None => (s, RFail)
     | Some v => let a := v_attrs v in
-                (s, ROk [get_str a _HDF_LongName len; get_str a _HDF_Units len; get_str a _HDF_Format len; get_str a _HDF_CoordSys len])
+                (s, ROk [TB (get_str a _HDF_LongName len); TB (get_str a _HDF_Units len); TB (get_str a _HDF_Format len);
+                         TB (get_str a _HDF_CoordSys len)])
     end
   | SdSetCal i data nt =>
     if negb w then (s, RUnspec) else
@@ -319,22 +371,15 @@ Definition sd_step (s : state) (o : op) : state * res :=
     | None => (s, RFail)
     | Some v =>
       let f k := firstn 8 (skipn (8 * k) data) in
-      let ntb := [Z.land nt 255; Z.land (Z.shiftr nt 8) 255; Z.land (Z.shiftr nt 16) 255; Z.land (Z.shiftr nt 24) 255] in
-      let news := [mkAttr _HDF_ScaleFactor DFNT_FLOAT64 1 (f 0%nat); mkAttr _HDF_ScaleFactorErr DFNT_FLOAT64 1 (f 1%nat);
-                   mkAttr _HDF_AddOffset DFNT_FLOAT64 1 (f 2%nat); mkAttr _HDF_AddOffsetErr DFNT_FLOAT64 1 (f 3%nat);
-                   mkAttr _HDF_CalibratedNt DFNT_INT32 1 ntb] in
-      (with_cur s (set_var_attrs c i (put_all (v_attrs v) news)) true, ROk [])
+      (with_cur s (set_var_attrs c i (spec_setcal (v_attrs v) (f 0%nat) (f 1%nat) (f 2%nat) (f 3%nat) nt)) true, ROk [])
     end
   | SdGetCal i =>
     match znth (s_vars c) i with
     | None => (s, RFail)
     | Some v =>
-      let a := v_attrs v in
-      match find_attr a _HDF_ScaleFactor, find_attr a _HDF_ScaleFactorErr, find_attr a _HDF_AddOffset,
-            find_attr a _HDF_AddOffsetErr, find_attr a _HDF_CalibratedNt with
-      | Some a1, Some a2, Some a3, Some a4, Some a5 =>
-        (s, ROk [TB (fixed 8 (a_data a1) ++ fixed 8 (a_data a2) ++ fixed 8 (a_data a3) ++ fixed 8 (a_data a4)); TI (le_int32 (a_data a5))])
-      | _, _, _, _, _ => (s, RFail)
+      match spec_getcal (v_attrs v) with
+      | Some (d1, d2, d3, d4, d5) => (s, ROk [TB (fixed 8 d1 ++ fixed 8 d2 ++ fixed 8 d3 ++ fixed 8 d4); TI (le_int32 d5)])
+      | None => (s, RFail)
       end
     end
   | SdSetRange i mx mn =>
@@ -342,7 +387,7 @@ Definition sd_step (s : state) (o : op) : state * res :=
     match znth (s_vars c) i with
     | None => (s, RFail)
     | Some v => match nt_size (v_nt v) with
-                | Some sz => (with_cur s (set_var_attrs c i (put_all (v_attrs v) [mkAttr _HDF_ValidRange (v_nt v) 2 (fixed sz mn ++ fixed sz mx)])) true, ROk [])
+                | Some sz => (with_cur s (set_var_attrs c i (spec_setrange (v_attrs v) (v_nt v) sz mx mn)) true, ROk [])
                 | None => (s, RUnspec)
                 end
     end
@@ -350,16 +395,13 @@ Definition sd_step (s : state) (o : op) : state * res :=
     match znth (s_vars c) i with
     | None => (s, RFail)
     | Some v =>
-      match nt_size (v_nt v) with
-      | None => (s, RUnspec)
-      | Some sz =>
-        match find_attr (v_attrs v) _HDF_ValidRange with
-        | Some a =>
-          if (a_nt a =? v_nt v) && (a_count a =? 2)
-          then (s, ROk [TB (firstn (Z.to_nat sz) (skipn (Z.to_nat sz) (a_data a))); TB (firstn (Z.to_nat sz) (a_data a))])
-          else (s, RUnspec)     (* a valid_range of a foreign type / count: outside the predefined getter's domain *)
-        | None => (s, RSkip)    (* falls back to valid_max / valid_min (netCDF convention): not generated *)
-        end
+      match nt_size (v_nt v), find_attr (v_attrs v) _HDF_ValidRange with
+      | Some sz, Some a =>
+        if (a_nt a =? v_nt v) && (a_count a =? 2)
+        then match spec_getrange (v_attrs v) sz with Some (mx, mn) => (s, ROk [TB mx; TB mn]) | None => (s, RFail) end
+        else (s, RUnspec)     (* a valid_range of a foreign type / count: outside the predefined getter's domain *)
+      | Some _, None => (s, RSkip)    (* falls back to valid_max / valid_min (netCDF convention): not generated *)
+      | None, _ => (s, RUnspec)
       end
     end
   | SdSetFill i val =>
@@ -367,7 +409,7 @@ Definition sd_step (s : state) (o : op) : state * res :=
     match znth (s_vars c) i with
     | None => (s, RFail)
     | Some v => match nt_size (v_nt v) with
-                | Some sz => (with_cur s (set_var_attrs c i (put_all (v_attrs v) [mkAttr _FillValue (v_nt v) 1 (fixed sz val)])) true, ROk [])
+                | Some sz => (with_cur s (set_var_attrs c i (spec_setfill (v_attrs v) (v_nt v) sz val)) true, ROk [])
                 | None => (s, RUnspec)
                 end
     end
@@ -375,47 +417,42 @@ Definition sd_step (s : state) (o : op) : state * res :=
     match znth (s_vars c) i with
     | None => (s, RFail)
     | Some v =>
-      match nt_size (v_nt v), find_attr (v_attrs v) _FillValue with
-      | Some sz, Some a => if (a_nt a =? v_nt v) && (a_count a =? 1) then (s, ROk [TB (a_data a)]) else (s, RUnspec)
-      | Some _, None => (s, RFail)
-      | None, _ => (s, RUnspec)
+      match find_attr (v_attrs v) _FillValue with
+      | Some a => if (a_nt a =? v_nt v) && (a_count a =? 1)
+                  then match spec_getfill (v_attrs v) with Some d => (s, ROk [TB d]) | None => (s, RFail) end
+                  else (s, RUnspec)
+      | None => (s, RFail)
       end
     end
   | SdSetDimName i d name =>
     if negb w then (s, RUnspec) else
     if negb (dim_names_ok name) then (s, RUnspec) else
-    match var_dim c i d with
-    | None => (s, RFail)
-    | Some k =>
+    match var_slot c i d, var_dim c i d with
+    | Some sl, Some k =>
       match znth (s_dims c) k with
       | None => (s, RFail)
       | Some dm =>
-        (* another dimension object of that name? *)
+        (* another dimension of that name? *)
         let other := find (fun p => match d_name (snd p) with Some n => beq n name && negb (fst p =? k) | None => false end)
                           (combine (map Z.of_nat (seq 0 (length (s_dims c)))) (s_dims c)) in
         match other with
         | Some (k2, dm2) =>
           if d_size dm2 =? d_size dm
-          then (* share: this slot of variable i now denotes dimension k2 *)
-            match znth (s_vars c) i with
-            | Some v => (with_cur s (mkSd (s_gattrs c)
-                          (zset (s_vars c) i (mkVar (v_name v) (v_kind v) (v_nt v) (zset (v_dims v) d k2) (v_attrs v) (v_scale v)))
-                          (s_dims c)) true, ROk [])
-            | None => (s, RFail)
-            end
+          then (with_cur s (set_slots c (zset (s_slots c) sl k2)) true, ROk [])   (* share: the slot now denotes k2 *)
           else (s, RFail)
         | None =>
           (* rename; the coordinate variable (scale, attributes) follows the dimension *)
           let vars' := match coord_of c k with
                        | Some j => match znth (s_vars c) j with
-                                   | Some v => zset (s_vars c) j (mkVar (Some name) (v_kind v) (v_nt v) (v_dims v) (v_attrs v) (v_scale v))
+                                   | Some v => zset (s_vars c) j (upd_var v (Some name) (v_nt v) (v_dims v) (v_attrs v) (v_scale v))
                                    | None => s_vars c
                                    end
                        | None => s_vars c
                        end in
-          (with_cur s (mkSd (s_gattrs c) vars' (zset (s_dims c) k (mkDim (Some name) (d_size dm)))) true, ROk [])
+          (with_cur s (set_dims (set_vars c vars') (zset (s_dims c) k (mkDim (Some name) (d_size dm)))) true, ROk [])
         end
       end
+    | _, _ => (s, RFail)
     end
   | SdDimInfo i d =>
     match var_dim c i d with
@@ -436,27 +473,26 @@ Definition sd_step (s : state) (o : op) : state * res :=
     end
   | SdSetDimScale i d count nt data =>
     if negb w then (s, RUnspec) else
-    match var_dim c i d, nt_size nt, nc_type nt with
-    | Some k, Some sz, Some _ =>
+    match var_slot c i d, var_dim c i d, nt_size nt, nc_type nt with
+    | Some sl, Some k, Some sz, Some _ =>
       match znth (s_dims c) k with
       | None => (s, RFail)
       | Some dm =>
         if negb (count =? d_size dm) then (s, RFail) else
         if negb ((zlen data =? count * sz) && (Z.land nt DFNT_NATIVE =? 0)) then (s, RUnspec) else
-        let '(c', j) := ensure_coord c k nt in
+        let '(c', j) := ensure_coord c sl k nt in
         match znth (s_vars c') j with
-        | Some v => (with_cur s (mkSd (s_gattrs c') (zset (s_vars c') j (mkVar (v_name v) KCoord nt (v_dims v) (v_attrs v) (Some data))) (s_dims c')) true, ROk [])
+        | Some v => (with_cur s (set_vars c' (zset (s_vars c') j (upd_var v (v_name v) nt (v_dims v) (v_attrs v) (Some data)))) true, ROk [])
         | None => (s, RFail)
         end
       end
-    | None, _, _ => (s, RFail)
-    | _, _, _ => (s, RUnspec)
+    | None, _, _, _ | _, None, _, _ => (s, RFail)
+    | _, _, _, _ => (s, RUnspec)
     end
   | SdGetDimScale i d =>
-    match var_dim c i d with
-    | None => (s, RFail)
-    | Some k =>
-      let '(c', j) := ensure_coord c k 0 in
+    match var_slot c i d, var_dim c i d with
+    | Some sl, Some k =>
+      let '(c', j) := ensure_coord c sl k 0 in
       match znth (s_vars c') j with
       | Some v => match v_scale v with
                   | Some dt => (with_cur s c' true, ROk [TI (v_nt v); TB dt])
@@ -464,18 +500,18 @@ Definition sd_step (s : state) (o : op) : state * res :=
                   end
       | None => (s, RFail)
       end
+    | _, _ => (s, RFail)
     end
   | SdSetDimStrs i d l u f =>
     if negb w then (s, RUnspec) else
-    match var_dim c i d with
-    | None => (s, RFail)
-    | Some k =>
-      let '(c', j) := ensure_coord c k 0 in
+    match var_slot c i d, var_dim c i d with
+    | Some sl, Some k =>
+      let '(c', j) := ensure_coord c sl k 0 in
       match znth (s_vars c') j with
-      | Some v => let news := str_attr _HDF_LongName l ++ str_attr _HDF_Units u ++ str_attr _HDF_Format f in
-                  (with_cur s (set_var_attrs c' j (put_all (v_attrs v) news)) true, ROk [])
+      | Some v => (with_cur s (set_var_attrs c' j (spec_setstrs (v_attrs v) l u f None)) true, ROk [])
       | None => (s, RFail)
       end
+    | _, _ => (s, RFail)
     end
   | SdGetDimStrs i d len =>
     match var_dim c i d with
@@ -485,7 +521,7 @@ Definition sd_step (s : state) (o : op) : state * res :=
                | Some j => match znth (s_vars c) j with Some v => v_attrs v | None => [] end
                | None => []
                end in
-      (s, ROk [get_str a _HDF_LongName len; get_str a _HDF_Units len; get_str a _HDF_Format len])
+      (s, ROk [TB (get_str a _HDF_LongName len); TB (get_str a _HDF_Units len); TB (get_str a _HDF_Format len)])
     end
   | SdLookup =>
     let vs := s_vars c in
@@ -564,7 +600,7 @@ Definition h_step (s : state) (o : op) : state * res :=
     match gr_list h ob with
     | None => (s, RFail)
     | Some l =>
-      if negb (args_ok nt count data) then (s, RFail) else
+      if negb (args_ok true nt count data) then (s, RFail) else
       match attr_set PSameType l (mkAttr name nt count data) with
       | Some l' => (with_h s (gr_put h ob l'), ROk [])
       | None => (s, RFail)
@@ -592,7 +628,7 @@ Definition h_step (s : state) (o : op) : state * res :=
       if negb w then (s, RFail) else
       if negb (field_ok v fi) then (s, RFail) else
       if negb ((1 <=? zlen name) && (zlen name <=? VSNAMELENMAX)) then (s, RUnspec) else
-      if negb (args_ok nt count data) then (s, RFail) else
+      if negb (args_ok true nt count data) then (s, RFail) else
       match attr_set PSameTypeCount (assoc_attrs (vd_attrs v) fi) (mkAttr name nt count data) with
       | Some l' => (with_h s (mkH (h_gattrs h) (h_imgs h) (zset (h_vds h) k (mkVd (vd_nf v) (assoc_put (vd_attrs v) fi l'))) (h_vgs h)), ROk [])
       | None => (s, RFail)
@@ -626,7 +662,7 @@ Definition h_step (s : state) (o : op) : state * res :=
     | Some l =>
       if negb w then (s, RFail) else
       if negb ((1 <=? zlen name) && (zlen name <=? VSNAMELENMAX)) then (s, RUnspec) else
-      if negb (args_ok nt count data) then (s, RFail) else
+      if negb (args_ok true nt count data) then (s, RFail) else
       match attr_set PSameTypeCount l (mkAttr name nt count data) with
       | Some l' => (with_h s (mkH (h_gattrs h) (h_imgs h) (h_vds h) (zset (h_vgs h) k l')), ROk [])
       | None => (s, RFail)
